@@ -239,9 +239,6 @@ func (c *Conn) Close() error {
 	}
 	c.closed = true
 
-	// Data that arrives from now on is for a closed session and gets refused.
-	c.handler.rmStream(c.stanzaWriter.sid)
-
 	// Flush any remaining data to be written.
 	err := c.Flush()
 	if err != nil {
@@ -265,6 +262,10 @@ func (c *Conn) Close() error {
 	if err != nil {
 		return err
 	}
+	// The other side has flushed what it had buffered and acknowledged the
+	// close: data that arrives from now on is for a closed session and gets
+	// refused.
+	c.handler.rmStream(c.stanzaWriter.sid)
 	close(c.readReady)
 	return respReadCloser.Close()
 }
